@@ -236,7 +236,11 @@ def gen_cases(tier, seed):
             sid = rng.choice([0, 1])
             v = rng.choice(VALS)
             dist["values"][v] = dist["values"].get(v, 0) + 1
-            if r < 0.55: return [CC("n1", sid, "set %s %s" % (k, v))]
+            if r < 0.5: return [CC("n1", sid, "set %s %s" % (k, v))]
+            if r < 0.56:
+                # the database's own users, permission lists and other $$ keys are data of the database too
+                return [CC("n1", 0, rng.choice(["create-user u%d pw%d" % (rng.randint(0, 1), rng.randint(0, 9)), "set-permissions u0 %s a*" % rng.choice(["r", "rw", "rwix"]),
+                                                "set $$note n%d" % rng.randint(0, 9)]))]
             if r < 0.7: return [CC("n1", sid, "remove %s" % k)]
             if r < 0.8: return [CC("n1", sid, "increment n %d" % rng.randint(1, 4))]
             if r < 0.9: return [CC("n1", 0, "snapshot false"), ["flush", "n1"]]
